@@ -66,6 +66,50 @@ pub fn install_sched_hook() {
 #[cfg(not(facebook_akd_verif))]
 pub fn install_sched_hook() {}
 
+/// Installs akd's guarded trace hook: every linearization point of the in-memory transaction is appended,
+/// synchronously, to the protocol trace of the run the calling task belongs to.
+#[cfg(facebook_akd_verif)]
+pub fn install_trace_hook() {
+    akd::verif_hooks::set_trace_hook(Some(Arc::new(|name: &'static str, ok: bool, recs: &[DbRecord]| {
+        if let Ok(ctl) = CTL.try_with(|c| c.clone()) {
+            let mut c = ctl.lock().unwrap();
+            if c.proto_enabled {
+                let pid = current_pid();
+                let ev = serde_json::json!({"ev": name.replace("txn:", "t_"), "pid": pid, "ok": ok,
+                    "recs": recs.iter().filter_map(rec_json).collect::<Vec<_>>()});
+                c.proto.push(ev);
+            }
+        }
+    })));
+}
+#[cfg(not(facebook_akd_verif))]
+pub fn install_trace_hook() {}
+
+/// label of a tree node as a short string: 64 leading bits in hex + "/" + length
+pub fn node_key(l: &akd::NodeLabel) -> String {
+    format!("{}/{}", hex::encode(&l.label_val[..8]), l.label_len)
+}
+
+/// What the protocol trace says about a record: the epoch record's epoch; a node record's two versions
+/// (epoch + value; the full value is kept for the root so that the driver can turn it into the digest).
+/// Value states are not part of the protocol model.
+pub fn rec_json(r: &DbRecord) -> Option<serde_json::Value> {
+    match r {
+        DbRecord::Azks(a) => Some(serde_json::json!({"t": "azks", "ep": a.latest_epoch})),
+        DbRecord::TreeNode(n) => {
+            let full = n.label.label_len == 0;
+            let h = |v: &akd::AzksValue| if full { hex::encode(v.0) } else { hex::encode(&v.0[..6]) };
+            let (pn, pep, ph) = match &n.previous_node {
+                None => (true, 0, String::new()),
+                Some(p) => (false, p.last_epoch, h(&p.hash)),
+            };
+            Some(serde_json::json!({"t": "node", "k": node_key(&n.label), "lep": n.latest_node.last_epoch, "lh": h(&n.latest_node.hash),
+                "pn": pn, "pep": pep, "ph": ph}))
+        }
+        DbRecord::ValueState(_) => None,
+    }
+}
+
 pub fn current_pid() -> u32 {
     PID.try_with(|p| *p).unwrap_or(0)
 }
@@ -108,6 +152,10 @@ pub struct Ctl {
     pub gate_post: bool,
     /// akd's guarded scheduling points take part in the gate
     pub sched_points: bool,
+    /// protocol trace (TraceConcurrent): transaction linearization points reported by akd's guarded trace
+    /// hook, database writes seen by this wrapper, call returns pushed by the driver - in real order
+    pub proto_enabled: bool,
+    pub proto: Vec<serde_json::Value>,
 }
 
 #[derive(Clone)]
@@ -237,6 +285,15 @@ impl HookDb {
 }
 
 impl HookDb {
+    /// protocol trace: a database write took effect (or failed as a whole) - recorded right after the change
+    fn proto_write(&self, ok: bool, recs: Vec<serde_json::Value>) {
+        let mut c = self.ctl.lock().unwrap();
+        if c.proto_enabled {
+            let pid = current_pid();
+            c.proto.push(serde_json::json!({"ev": "db_write", "pid": pid, "ok": ok, "recs": recs}));
+        }
+    }
+
     /// completion point of a gated operation (see Ctl::gate_post)
     async fn leave(&self) {
         let pid = current_pid();
@@ -285,8 +342,13 @@ fn rec_desc(r: &DbRecord) -> String {
 #[async_trait]
 impl Database for HookDb {
     async fn set(&self, record: DbRecord) -> Result<(), StorageError> {
-        self.enter("set", rec_desc(&record), true).await?;
+        let recs = rec_json(&record).into_iter().collect::<Vec<_>>();
+        if let Err(e) = self.enter("set", rec_desc(&record), true).await {
+            self.proto_write(false, recs);
+            return Err(e);
+        }
         let r = self.inner.set(record).await;
+        self.proto_write(r.is_ok(), recs);
         self.leave().await;
         r
     }
@@ -294,8 +356,11 @@ impl Database for HookDb {
     async fn batch_set(&self, records: Vec<DbRecord>, state: DbSetState) -> Result<(), StorageError> {
         let is_commit = matches!(state, DbSetState::TransactionCommit);
         let detail = records.iter().map(rec_desc).collect::<Vec<_>>().join(",");
-        self.enter(if is_commit { "commit" } else { "batch_set" }, detail, true)
-            .await?;
+        let recs = records.iter().filter_map(rec_json).collect::<Vec<_>>();
+        if let Err(e) = self.enter(if is_commit { "commit" } else { "batch_set" }, detail, true).await {
+            self.proto_write(false, recs);
+            return Err(e);
+        }
         if is_commit {
             let mut c = self.ctl.lock().unwrap();
             if c.capture_commit {
@@ -307,6 +372,7 @@ impl Database for HookDb {
             }
         }
         let r = self.inner.batch_set(records, state).await;
+        self.proto_write(r.is_ok(), recs);
         self.leave().await;
         r
     }
